@@ -52,6 +52,7 @@ DEFAULT_PROFILE = dict(
     p_txlimit=0.0,
     p_explimits=0.0,
     p_two_clients=0.0,
+    two_clients_unlimited=False,   # no transaction limits on the two clients (the limits are C18's business)
     discipline=False,
     center=(60, 140),
     p_cross=0.0,          # a callback for one market sends its requests to another market of the run
@@ -383,6 +384,8 @@ class Gen:
                 s["markets"] = [0]
         if self.chance(p["p_two_clients"]):
             scn["clients"] = [{"name": "c1", "transaction_limit": rnd.choice([None, 0, 1, 2, 3, 5])}, {"name": "c2", "transaction_limit": rnd.choice([None, 1, 3])}]
+            if p["two_clients_unlimited"]:
+                scn["clients"] = [{"name": "c1"}, {"name": "c2", "commission": 0.02}]
             for s in strategies:   # part of the placements goes through the second client
                 for acts in s["script"].values():
                     for a in acts:
